@@ -157,11 +157,11 @@ def run(ctx):
     # ---- random long range sets, whitespace variants
     n_rand = ctx.scale(40_000, 4_000_000)
     for i in range(n_rand):
-        size = rng.choice([0, 1, 2, 9, 10, 99, 100, 1000, 4623, 65536, 10 ** 6, rng.randrange(1, 10 ** 6)])
+        size = rng.choice([0, 1, 2, 9, 10, 99, 100, 1000, 4623, 65536, 10 ** 6, rng.randrange(1, 10 ** 6), 2 ** 53 + 5, 2 ** 63 + 3, 2 ** 64 + 7, 10 ** 19])
         k = rng.randrange(1, 13)
         hi = max(size + 3, 4)
         specs, parts = [], []
-        anchors = [0, 1, size - 1, size, size + 1] + [rng.randrange(0, hi) for _ in range(4)]
+        anchors = [0, 1, size - 1, size, size + 1, size - 2, size // 2, max(0, size - 2 ** 10)] + [rng.randrange(0, hi) for _ in range(4)]
         for _ in range(k):
             form = rng.random()
             a = max(0, rng.choice(anchors) + rng.randrange(-2, 3))
